@@ -329,7 +329,7 @@ static void od_defaults(void)
     v1016_0 = OD_HBC_E;
 #endif
 #ifdef OD_CSDO
-    v1280_1 = 0x600 + 9; v1280_2 = 0x580 + 9; v1280_3 = 9;
+    v1280_1 = 0x600; v1280_2 = 0x580; v1280_3 = 9;
 #endif
 #if OD_RPDO > 0
     V1400_1(0) = 0x200; V1400_2(0) = 254; V1600_0(0) = 0;
